@@ -349,7 +349,7 @@ func ccGraph(r *gen.Rand, e *emitter) (map[string]string, []string) {
 	// where the `Wrap == WrapCJS && ref != WrapperRef` test of computeCrossChunkDependencies decides about a symbol
 	// of another chunk. For contrast: a wrapped ES module that imports the binding normally and uses it.
 	wrapFam := make([][][2]int, nEnt) // per entry: (shared module, kind)
-	direct := make([][]int, nEnt)      // per entry: shared modules it must import directly
+	direct := make([][]int, nEnt)     // per entry: shared modules it must import directly
 	for j := 0; j < nEnt; j++ {
 		if r.Chance(1, 3) {
 			for k := 0; k < 1+r.Intn(2); k++ {
